@@ -313,9 +313,24 @@ func escrowCreation(p *Prog, r *Report, rule string, ctors []string, escrowCall,
 		}
 	}
 	sort.Slice(fns, func(i, j int) bool { return fname(fns[i]) < fname(fns[j]) })
+	inlinedHelper := func(h *ssa.Function) bool {
+		if h.Object() == nil || h.Object().Exported() || h.Parent() != nil {
+			return false
+		}
+		sites := p.CallSitesOf(h)
+		if len(sites) == 0 {
+			return false
+		}
+		for _, cs := range sites {
+			if cs.Parent() == nil || cs.Parent().Pkg != h.Pkg {
+				return false
+			}
+		}
+		return true
+	}
 	for _, fn := range fns {
-		if p.isLocalClosure(fn) {
-			continue // analysed as part of the function that defines and calls it
+		if p.isLocalClosure(fn) || inlinedHelper(fn) {
+			continue // analysed as part of the function that defines / calls it
 		}
 		// constructor calls and escrow sends of the function, including those inside local closures
 		// and same-module helpers it calls (virtual inlining); each is placed at its call site
@@ -331,7 +346,7 @@ func escrowCreation(p *Prog, r *Report, rule string, ctors []string, escrowCall,
 			}
 			if p.callIs(vs.call, ctors...) {
 				// a constructor inside a helper that is itself analysed (it has the constructor) is its business
-				if vs.call.Parent() != fn && !p.isLocalClosure(vs.call.Parent()) {
+				if vs.call.Parent() != fn && !p.isLocalClosure(vs.call.Parent()) && !inlinedHelper(vs.call.Parent()) {
 					continue
 				}
 				ctorCalls = append(ctorCalls, site{vs.anchor, vs.call})
